@@ -10,24 +10,24 @@ import (
 
 // Rigs maps a property id to its rig.
 var Rigs = map[string]sim.Rig{
-	"C07": {Name: "reload", Run: runReload},
-	"C16": {Name: "lifecycle", Run: runLifecycle},
-	"C14": {Name: "pool", Run: runPool("C14")},
-	"C05": {Name: "pool", Run: runPool("C05")},
-	"C19": {Name: "peerbytes", Run: runC19},
+	"C07":  {Name: "reload", Run: runReload},
+	"C16":  {Name: "lifecycle", Run: runLifecycle},
+	"C14":  {Name: "pool", Run: runPool("C14")},
+	"C05":  {Name: "pool", Run: runPool("C05")},
+	"C19":  {Name: "peerbytes", Run: runC19},
 	"C19t": {Name: "tlshello", Run: runTLSHello},
-	"C13": {Name: "fcgi", Run: runFcgi("C13")},
+	"C13":  {Name: "fcgi", Run: runFcgi("C13")},
 	"C19f": {Name: "fcgi", Run: runFcgi("C19")},
 	"C19s": {Name: "site", Run: runSite("C19")},
 	"C19h": {Name: "h2push", Run: runH2Push},
-	"C12": {Name: "site", Run: runSite("C12")},
-	"C18": {Name: "site", Run: runSite("C18")},
-	"C20": {Name: "site", Run: runSite("C20")},
+	"C12":  {Name: "site", Run: runSite("C12")},
+	"C18":  {Name: "site", Run: runSite("C18")},
+	"C20":  {Name: "site", Run: runSite("C20")},
 	"C17b": {Name: "site", Run: runSite("C17")},
 	"C17l": {Name: "listener", Run: runListenerLimits},
-	"C17": {Name: "limits", Run: runC17},
-	"C04": {Name: "relay", Run: runRelay},
-	"C08": {Name: "loadfail", Run: runLoadfail, NoBubble: true},
+	"C17":  {Name: "limits", Run: runC17},
+	"C04":  {Name: "relay", Run: runRelay},
+	"C08":  {Name: "loadfail", Run: runLoadfail, NoBubble: true},
 }
 
 // runC19 spreads the property over its peer-facing surfaces: each run picks
